@@ -117,7 +117,8 @@ Record mstate := MSt {
   m_meta : meta;
   m_ctx : list layer;            (* head = msg.Context(); [] = the context the message came with *)
   m_base_done : bool;            (* that base context is cancelled *)
-  m_settle : settle }.
+  m_settle : settle;
+  m_base_dl : option Z }.        (* a deadline the message arrived with (on its base context), if any *)
 
 (** what can be observed of a message through its API *)
 Record vstate := VSt {
@@ -136,10 +137,17 @@ Fixpoint min_deadline (l : list layer) : option Z :=
                end
   end.
 Definition ctx_done (m : mstate) : bool := m_base_done m || existsb l_cancelled (m_ctx m).
+(** the earlier of two optional deadlines *)
+Definition dl_min (a b : option Z) : option Z :=
+  match a, b with
+  | Some x, Some y => Some (Z.min x y)
+  | Some x, None => Some x
+  | None, b => b
+  end.
 Definition view (m : mstate) : vstate :=
   VSt (m_meta m) (match m_ctx m with [] => true | _ => false end) (ctx_done m)
-      (min_deadline (m_ctx m)) (m_settle m).
-Definition unview (v : vstate) : mstate := MSt (v_meta v) [] (v_done v) (v_settle v).
+      (dl_min (m_base_dl m) (min_deadline (m_ctx m))) (m_settle m).
+Definition unview (v : vstate) : mstate := MSt (v_meta v) [] (v_done v) (v_settle v) (v_deadline v).
 
 Inductive event :=
 | ECall (k : nat) (v : vstate)   (* k-th handler call (0-based) and what it saw on entry *)
@@ -149,9 +157,9 @@ Record world := W { w_msg : mstate; w_calls : nat; w_trace : list event }.
 Definition handler := world -> world * outcome.
 
 Definition set_msg (w : world) (m : mstate) : world := W m (w_calls w) (w_trace w).
-Definition set_ctx (m : mstate) (c : list layer) : mstate := MSt (m_meta m) c (m_base_done m) (m_settle m).
-Definition set_meta (m : mstate) (mt : meta) : mstate := MSt mt (m_ctx m) (m_base_done m) (m_settle m).
-Definition set_settle (m : mstate) (s : settle) : mstate := MSt (m_meta m) (m_ctx m) (m_base_done m) s.
+Definition set_ctx (m : mstate) (c : list layer) : mstate := MSt (m_meta m) c (m_base_done m) (m_settle m) (m_base_dl m).
+Definition set_meta (m : mstate) (mt : meta) : mstate := MSt mt (m_ctx m) (m_base_done m) (m_settle m) (m_base_dl m).
+Definition set_settle (m : mstate) (s : settle) : mstate := MSt (m_meta m) (m_ctx m) (m_base_done m) s (m_base_dl m).
 Definition emit (w : world) (e : event) : world := W (w_msg w) (w_calls w) (w_trace w ++ [e]).
 
 (** message.Ack / Nack: first settlement wins (message/message.go, property C03) *)
@@ -163,7 +171,7 @@ Definition do_action (m : mstate) (a : action) : mstate :=
   | AAck => set_settle m (ack_settle (m_settle m))
   | ANack => set_settle m (nack_settle (m_settle m))
   | ASetMeta k v => set_meta m (mset k v (m_meta m))
-  | ACancel => MSt (m_meta m) (m_ctx m) true (m_settle m)
+  | ACancel => MSt (m_meta m) (m_ctx m) true (m_settle m) (m_base_dl m)
   end.
 
 (** the scripted handler *)
